@@ -119,6 +119,38 @@ namespace hv
         }
     };
 
+    // Result = a re-arrangement of ONE structured (2x2) parameter, built from its projections:
+    //   1 rows exchanged (whole rows)   2 rows exchanged, leaf by leaf   3 columns exchanged   4 transposed   5 rows exchanged and
+    //   columns exchanged   6 unchanged, leaf by leaf (rebuilt, not the parameter itself)
+    struct SubQ
+    {
+        static constexpr auto name = "subq";
+        static Port<S_QQ> compose(Wiring &w, Port<S_QQ> q, Scalar<"perm", Int> perm)
+        {
+            auto r0 = tsl_element(q, 0);
+            auto r1 = tsl_element(q, 1);
+            auto pair = [&](const Port<TS<Int>> &a, const Port<TS<Int>> &b) { return stdlib::to_tsl<S_PAIR>(w, a, b).template as<S_PAIR>(); };
+            auto grid = [&](const Port<S_PAIR> &a, const Port<S_PAIR> &b) { return stdlib::to_tsl<S_QQ>(w, a, b).template as<S_QQ>(); };
+            switch (perm.value())
+            {
+                case 1: return grid(r1, r0);
+                case 2: return grid(pair(tsl_element(r1, 0), tsl_element(r1, 1)), pair(tsl_element(r0, 0), tsl_element(r0, 1)));
+                case 3: return grid(pair(tsl_element(r0, 1), tsl_element(r0, 0)), pair(tsl_element(r1, 1), tsl_element(r1, 0)));
+                case 4: return grid(pair(tsl_element(r0, 0), tsl_element(r1, 0)), pair(tsl_element(r0, 1), tsl_element(r1, 1)));
+                case 5: return grid(pair(tsl_element(r1, 1), tsl_element(r1, 0)), pair(tsl_element(r0, 1), tsl_element(r0, 0)));
+                default: return grid(pair(tsl_element(r0, 0), tsl_element(r0, 1)), pair(tsl_element(r1, 0), tsl_element(r1, 1)));
+            }
+        }
+    };
+    struct SubQ2   // the same, one nesting level deeper
+    {
+        static constexpr auto name = "subq2";
+        static Port<S_QQ> compose(Wiring &w, Port<S_QQ> q, Scalar<"perm", Int> perm)
+        {
+            return nested_<SubQ>(w, q, perm.value()).template as<S_QQ>();
+        }
+    };
+
     // WiredFn-able sub-graphs (no scalars): template index selects the program "fn<K>".
     template <int K>
     struct Fn1
@@ -259,6 +291,7 @@ namespace hv
         if (n == "xor") return fn<VXor2>();
         if (n == "mark") return fn<VMark2>();
         if (n == "add") return fn<stdlib::add_>();
+        if (n == "mergedd") return fn<VMergeDD>();
         throw std::runtime_error("unknown wired fn " + spec);
     }
 
